@@ -173,7 +173,7 @@ impl Prop for C11 {
             v.push(format!("constructor:{}:CurveDF", r));
             v.push(format!("constructor:{}:python-facing", r));
         }
-        for c in ["supply:shuffled", "supply:sorted", "nodes:2", "nodes:3", "nodes:many", "index_left:len2", "index_left:len3", "index_left:long", "index_left:at-element", "index_left:below", "index_left:above"] {
+        for c in ["supply:shuffled", "supply:sorted", "supply:shuffled-equals-sorted:python-facing", "nodes:2", "nodes:3", "nodes:many", "index_left:len2", "index_left:len3", "index_left:long", "index_left:at-element", "index_left:below", "index_left:above"] {
             v.push(c.to_string());
         }
         for h in ["as-built", "restored-from-json", "restored-from-pickle-state"] {
@@ -188,7 +188,7 @@ impl Prop for C11 {
         tier.pick(500_000, 50_000_000)
     }
     fn rule(&self) -> String {
-        "Seeded curves for each of the 5 rules: 2..12 (thorough 2..40) nodes, spacings from 1 second and 1 day to 10 years (second-resolution timestamps), positive values (discount-factor-like, near one, arbitrary, spanning 1e-6..1e6), shuffled supply order, built through CurveDF::try_new and through the Python-facing constructor (verif hook); two in three of the latter are looked up only after being restored from JSON or from the pickle state. Queries: every node, +-1 s and +-1 day around every node, midpoints, random interior points, far before / after. Each value against the rule's closed form on the oracle-selected interval (linear scan), node values at node dates, [min,max] containment for linear / log-linear, and node_index; separately index_left on strictly increasing random float lists of length 2..64. distinct_nontrivial = distinct (rule, node count, spacing kind, value kind, supply permutation hash).".into()
+        "Seeded curves for each of the 5 rules: 2..12 (thorough 2..40) nodes, spacings from 1 second and 1 day to 10 years (second-resolution timestamps), positive values (discount-factor-like, near one, arbitrary, spanning 1e-6..1e6), shuffled supply order, built through CurveDF::try_new and through the Python-facing constructor (verif hook); two in three of the latter are looked up only after being restored from JSON or from the pickle state; a Python-facing curve whose nodes were supplied shuffled is also compared with the one built from the same nodes in date order (node table, ==, and every looked-up number with names and derivative parts bit for bit, at node kinds float / Dual / Dual2). Queries: every node, +-1 s and +-1 day around every node, midpoints, random interior points, far before / after. Each value against the rule's closed form on the oracle-selected interval (linear scan), node values at node dates, [min,max] containment for linear / log-linear, and node_index; separately index_left on strictly increasing random float lists of length 2..64. distinct_nontrivial = distinct (rule, node count, spacing kind, value kind, supply permutation hash).".into()
     }
     fn assumptions(&self) -> Vec<String> {
         vec![
@@ -271,6 +271,46 @@ impl Prop for C11 {
                             return;
                         }
                     };
+                    // "the order in which nodes are supplied does not matter": the same nodes given in date order
+                    // make the same curve - node table, every looked-up number with its variable names and
+                    // derivative parts bit for bit, and == - at whatever derivative order it was built
+                    if !c.supply.windows(2).all(|w| w[0] < w[1]) {
+                        let mut sorted_spec = c.clone();
+                        sorted_spec.supply = (0..c.n()).collect();
+                        ctx.class("supply:shuffled-equals-sorted:python-facing");
+                        match guarded(|| VerifCurve::new(nodes_numbers(&sorted_spec), rule, ad_kind, &c.id, Convention::Act365F, Modifier::F, CalType::Cal(cal.clone()), c.index_base)) {
+                            Caught::Ok(Ok(vs)) => {
+                                ctx.eval(1);
+                                ctx.asserted(2 + qs.len() as u64);
+                                let (na, nb) = (vc.nodes(), vs.nodes());
+                                let table_same = na.len() == nb.len() && na.iter().zip(nb.iter()).all(|((k1, v1), (k2, v2))| k1 == k2 && super::c16::number_identical(v1, v2));
+                                if !table_same || !vc.eq(&vs) {
+                                    ctx.violation(
+                                        &format!("C11|supply-order-matters|{}", if table_same { "curves-compare-unequal" } else { "node-table-differs" }),
+                                        json!({"curve": c.describe(), "node_kind": format!("{:?}", ad_kind), "nodes_when_supplied_shuffled": na.iter().map(|(k, v)| format!("{} {:?}", k, v)).take(6).collect::<Vec<_>>(), "nodes_when_supplied_in_date_order": nb.iter().map(|(k, v)| format!("{} {:?}", k, v)).take(6).collect::<Vec<_>>()}),
+                                    );
+                                    return;
+                                }
+                                for (x, cls) in qs.iter() {
+                                    let dt = ts_to_ndt(*x);
+                                    if let Caught::Ok((a, b)) = guarded(|| (vc.value(&dt), vs.value(&dt))) {
+                                        if !super::c16::number_identical(&a, &b) {
+                                            ctx.violation("C11|supply-order-matters|looked-up-number-differs", json!({"curve": c.describe(), "query": dt.to_string(), "query_class": cls, "shuffled_supply": format!("{:?}", a), "date_order_supply": format!("{:?}", b)}));
+                                            return;
+                                        }
+                                    }
+                                }
+                            }
+                            Caught::Ok(Err(e)) => {
+                                ctx.violation("C11|constructor-error|python-facing", json!({"curve": sorted_spec.describe(), "error": e}));
+                                return;
+                            }
+                            Caught::Panic { loc, msg } => {
+                                ctx.violation(&format!("C11|panic|python-facing-constructor|{}", short_loc(&loc)), json!({"curve": sorted_spec.describe(), "message": msg}));
+                                return;
+                            }
+                        }
+                    }
                     let label = format!("Python-facing Curve ({})", how);
                     for (x, cls) in qs.iter() {
                         let dt = ts_to_ndt(*x);
